@@ -150,6 +150,46 @@ def _admission(ctx):
         ctx.ob('C03.1', life, node, ok,
                'leased instance admitted only under %s (found %s)' % (
                    N.show(want), N.show(atom) if atom else None))
+    # the expiry that is granted is the instant that was checked: every
+    # Server routine that computes a new placement_expiry assigns exactly
+    # time.time() + lease (restoring a saved value is a copy, not a grant)
+    granted = N.linear(ast.parse('time.time() + x.lease', mode='eval').body)
+    grants = 0
+    for func in server.live_methods():
+        if func.name == '__init__':
+            continue
+        params = func.params()
+        appv = params[1] if len(params) > 1 else None
+        fgraph = None
+        for sub in K.walk_no_nested(func.node):
+            if not (isinstance(sub, ast.Assign) and any(
+                    N.txt(t) == '%s.placement_expiry' % appv
+                    for t in sub.targets)):
+                continue
+            val = sub.value
+            if isinstance(val, ast.Constant) and val.value is None:
+                continue
+            fgraph = fgraph or ctx.cfg(func)
+            site = [n for n in fgraph.nodes if n.ast is sub]
+            if not site:
+                continue
+            resolved = K.value_at(func, fgraph, site[0], val)
+            if isinstance(resolved, ast.Attribute) and \
+                    resolved.attr == 'placement_expiry':
+                continue            # saved value put back
+            grants += 1
+            try:
+                lin = N.linear(resolved)
+            except Exception:             # pylint: disable=broad-except
+                lin = None
+            want_lin = dict((k.replace('x.lease', '%s.lease' % appv), v)
+                            for k, v in granted.items())
+            ctx.ob('C03.1', func, sub, lin == want_lin,
+                   'the expiry granted is now + lease, the instant the '
+                   'lifetime test compared with valid_until: %s' %
+                   N.txt(resolved), construct='granted expiry in %s' %
+                   func.name)
+    ctx.require(grants >= 2, 'expiry grants in Server (found %d)' % grants)
     return nz, server, put
 
 
@@ -490,6 +530,36 @@ def _unknown_traits(ctx):
            'unknown trait ORs the INVALID bit under use_invalid (and '
            'nothing else%s)' % (': also %s' % extra if extra else ''),
            construct='result |= code[INVALID]')
+    # a new trait gets a fresh bit: in every iteration that registers one
+    # the code is advanced before it is stored (two new traits of one call
+    # must not share a bit)
+    egraph = ctx.cfg(enc)
+    for node in egraph.nodes:
+        if node.kind == 'stmt' and isinstance(node.ast, ast.Assign) and \
+                isinstance(node.ast.targets[0], ast.Subscript) and \
+                N.txt(node.ast.targets[0].value) == enc.params()[0] and \
+                N.txt(node.ast.targets[0].slice) != 'INVALID':
+            loop = K.enclosing_for(egraph, node)
+            stored = set(n.id for n in ast.walk(node.ast.value)
+                         if isinstance(n, ast.Name))
+
+            def advances(edge, stored=stored):
+                stmt = edge.src.ast
+                if edge.src.kind != 'stmt' or not isinstance(
+                        stmt, (ast.Assign, ast.AugAssign)):
+                    return False
+                tgts = stmt.targets if isinstance(stmt, ast.Assign) else \
+                    [stmt.target]
+                return any(isinstance(t, ast.Name) and t.id in stored
+                           for t in tgts) and (
+                               '<<' in N.txt(stmt) or
+                               'max(' in N.txt(stmt) or '* 2' in N.txt(stmt))
+            ok = loop is not None and K.guarded_by(egraph, node, advances,
+                                                   start=loop)
+            ctx.ob('C03.6', enc, node, ok,
+                   'every newly registered trait gets a code advanced in '
+                   'that same iteration (distinct bits for distinct traits)',
+                   construct='fresh code per new trait')
     # create_code reserves INVALID first, every other trait gets a shifted
     # code
     src = ast.unparse(cc.node)
